@@ -19,6 +19,7 @@ import (
 
 	imap "github.com/emersion/go-imap/v2"
 	"github.com/emersion/go-imap/v2/imapserver"
+	"github.com/emersion/go-sasl"
 )
 
 // Call is one recorded backend call.
@@ -95,6 +96,28 @@ func (s *stubSession) TakeCalls() []Call {
 type stubUnauth struct{ *stubSession }
 
 func (s stubUnauth) Unauthenticate() error { return s.rec("Unauthenticate", nil, nil) }
+
+// stubSASL / stubSASLUnauth additionally implement imapserver.SessionSASL: the session offers
+// its own PLAIN mechanism whose credentials are recorded as a Login call, so that the call
+// trace is the same as with the server's built-in PLAIN path.
+type stubSASL struct{ *stubSession }
+type stubSASLUnauth struct{ stubUnauth }
+
+func (s *stubSession) saslMechanisms() []string { return []string{"PLAIN"} }
+func (s *stubSession) saslServer(mech string) (sasl.Server, error) {
+	if !strings.EqualFold(mech, "PLAIN") {
+		return nil, &imap.Error{Type: imap.StatusResponseTypeNo, Text: "SASL mechanism not supported"}
+	}
+	return sasl.NewPlainServer(func(identity, username, password string) error {
+		return s.Login(username, password)
+	}), nil
+}
+func (s stubSASL) AuthenticateMechanisms() []string              { return s.saslMechanisms() }
+func (s stubSASL) Authenticate(mech string) (sasl.Server, error) { return s.saslServer(mech) }
+func (s stubSASLUnauth) AuthenticateMechanisms() []string        { return s.saslMechanisms() }
+func (s stubSASLUnauth) Authenticate(mech string) (sasl.Server, error) {
+	return s.saslServer(mech)
+}
 
 func (s *stubSession) Calls() []Call {
 	s.mu.Lock()
@@ -293,6 +316,7 @@ type srvOpts struct {
 	TLSConfig    *tls.Config // Options.TLSConfig (STARTTLS)
 	TLSListener  bool        // serve implicit TLS
 	Unauth       bool        // session implements SessionUnauthenticate
+	SASL         bool        // session implements SessionSASL (its own PLAIN mechanism)
 	Configure    func(s *stubSession)
 	NewSession   func(c *imapserver.Conn) (imapserver.Session, *imapserver.GreetingData, error)
 }
@@ -309,7 +333,12 @@ func startServer(o srvOpts) *testServer {
 			ts.mu.Lock()
 			ts.sess = append(ts.sess, s)
 			ts.mu.Unlock()
-			if o.Unauth {
+			switch {
+			case o.Unauth && o.SASL:
+				return stubSASLUnauth{stubUnauth{s}}, &imapserver.GreetingData{PreAuth: o.PreAuth}, nil
+			case o.SASL:
+				return stubSASL{s}, &imapserver.GreetingData{PreAuth: o.PreAuth}, nil
+			case o.Unauth:
 				return stubUnauth{s}, &imapserver.GreetingData{PreAuth: o.PreAuth}, nil
 			}
 			return s, &imapserver.GreetingData{PreAuth: o.PreAuth}, nil
